@@ -179,7 +179,7 @@ PROPS['C20'] = dict(
     theorems=['distinct_keys_all_effects', 'concurrent_ids_distinct', 'concurrent_exactly_once', 'concurrent_merges_converge'],
     level='other',
     families=[dict(name='locks', corr='Locks', runs=[('table', 1, 1)]),
-              dict(name='stress', corr='Stress', runs=[('all', 1, 3)], par=7, race=True)],
+              dict(name='stress', corr='Stress', runs=[('all', 1, 3)], par=9, race=True)],
     level_text='PARTIAL. (1) Coq: in the interleaving model whose atomic steps are the critical sections, concurrent operations on distinct keys all take effect, identifiers handed out under any interleaving are distinct while outstanding, every in-flight registration resolves at most once, replicas converge under any interleaving of merges - corollaries of history theorems that quantify over all operation lists. (2) The premise "each method of the shared objects is one atomic step" is re-extracted from the current sources by go/ast on every run (how each method takes its mutex, which fields it touches before that, which helpers it calls holding the lock) and must satisfy the policy Corr/Locks.v (all_atomic computes to true). (3) "No data race" cannot be a theorem about a Gallina model: it is sampled by randomized stress of the registry, identifier pool, in-flight table + timeout list, both tries, replicated state with concurrent merges, per-session filter list and a whole broker with 16 concurrent clients, on all cores under the Go race detector, with the post-stress invariants of (1) checked on the real objects.',
     level_note='The race detector only sees the schedules that occur; a data race makes the harness process exit and is reported with the race report as replay. pqList.insert (two steps) is an accepted exception of the lock table under the hypothesis that deadlines are armed ahead of sweeps. The whole-broker stress runs on a mutex-protected in-memory message log because vx-labs/commitlog itself races (dependency); the writer queue is closed on context cancellation while the scheduler may still send (shutdown-only, not exercised). Trusted: Coq kernel + vm_compute; the extractor (harness/cmd/wharness/locks.go), the stress scenarios, the race detector.',
     explanation='interleaving corollaries proved in Coq; lock table extracted from the current sources and checked against a policy in Coq; data-race freedom sampled by stress under -race on 16 cores',
